@@ -40,6 +40,36 @@ def run(chk):
         for ow, outs, mode in [([0, 1, 2][:n], [0], "Simple"), ([1] * n, [2, 0], "Default"), ([0, 1, 2][:n][::-1], [], "Extreme")]:
             k += 1
             comp.append({"id": 100000 + k, "name": "compile:" + name, "prog": p, "owners": ow, "outs": outs, "mode": mode, "seed": chk.seed})
+    # (0) trace validation of the stage events recorded inside the real compile_context against spec/Pipeline.tla:
+    #     stages occur in the pipeline's order, none missing, every pass contract holds (uniquify after the last inlining,
+    #     counters distinct, final counters a subset, interface kept, ...)
+    import re as _re
+    jp, tp = chk.path("stage.jobs.ndjson"), chk.path("stage.trace.ndjson")
+    pending = list(comp)
+    rounds = 0
+    while pending and rounds < 6:
+        rounds += 1
+        lib.write_ndjson(jp, pending)
+        lib.harness(["stage-trace", jp, tp], timeout=3000)
+        trace = lib.read_ndjson(tp)
+        res = lib.tlc("PipelineTrace", "MC_PipelineTrace.cfg", env={"TRACE": tp}, workers=1, deque=True, timeout=1500, coverage=False)
+        chk.add_tlc(res, "pipeline_trace")
+        if rounds == 1:
+            chk.note("stage_events_validated", len(trace))
+            chk.traces += sum(1 for r in trace if r["ev"] == "begin")
+        if res.ok:
+            break
+        um = [l for l in res.printed if l.startswith('<<"UNMATCHED"')]
+        m = _re.match(r'<<"UNMATCHED", (\d+),', um[0]) if um else None
+        if not m:
+            raise lib.ToolError("PipelineTrace rejected the trace without naming the event:\n" + res.trace[:1500])
+        pos = int(m.group(1))
+        jobid = [r["job"] for r in trace[:pos] if r["ev"] == "begin"][-1]
+        job = [j for j in pending if j["id"] == jobid][0]
+        chk.violation({"phase": "pipeline-trace", "case": job["name"], "owners": job["owners"], "outs": job["outs"], "mode": job["mode"],
+                       "event": trace[pos - 1]["ev"]},
+                      {"job": job, "unmatched_event": trace[pos - 1], "previous_event": trace[pos - 2] if pos >= 2 else None})
+        pending = [j for j in pending if j["id"] != jobid]
     recs = oc.run_cases(chk, comp, "pipeline", INVS)
     ok = [r for r in recs if r["res"] == "ok"]
     chk.traces += len(ok)
